@@ -354,9 +354,13 @@ def run_check(pid, tier, base, workers=None, count=None, selftest=True):
         sample_idx = set(range(0, n, max(1, n // 4)))
         summaries = run_indices(pid, tier, base, range(n), workers, scratch_root, keep=sample_idx,
                                 chunk=getattr(mod, "CHUNK", 8), wall_budget=mod.WALL[tier])
-        # extra systematic sub-checks (fault-position sweeps, big outputs, ...)
+        # extra systematic sub-checks (fault-position sweeps, big outputs, ...); skipped when the seeded
+        # batch already found an unlisted violation, so that a defect which also makes the big scenarios
+        # crawl is reported as a violation instead of a wall-time harness error
         extra_summaries = []
-        if hasattr(mod, "extra_scenarios"):
+        seeded_unknown = any(not (v.get("sig") and (pid, v.get("sig")) in known)
+                             for s in summaries if "harness_error" not in s for v in s["violations"])
+        if hasattr(mod, "extra_scenarios") and not seeded_unknown:
             extras = list(mod.extra_scenarios(tier, base))
             if extras:
                 extra_summaries = run_extra(pid, mod, extras, workers, scratch_root, mod.WALL[tier])
